@@ -25,6 +25,7 @@ RULE = ('E4: pack_partitions_to_parquet of a fixed 7-row / 2-input-partition poi
         'an identical snapshot and a returned frame holding the input rows, or raise; after a raise a fault-free repeat with '
         'overwrite=True must produce the snapshot. Non-trivial = the planned fault actually fired; plans whose position is never '
         'reached are counted as rejected, not as coverage. distinct = distinct (configuration, plan).')
+RULE += (' Added after the seeded rounds: external temp directories without a {uuid} field (same directories on every run); abort points (a primitive failing three times in a row at every position) followed by the repeat.')
 ASSUMPTIONS = ['faults are injected at the fsspec boundary; byte-level corruption inside pyarrow\'s writer is modelled only as act-then-raise on open',
                'synchronous Dask scheduler so that the call trace is deterministic (checked: two fault-free runs give the same trace)']
 SCOPE = {'quick': {'configs': ['ext_empty', 'dflt'], 'single_faults': 'all positions x all applicable kinds',
